@@ -111,7 +111,23 @@ func checkMain(args []string) {
 				os.Exit(2)
 			}
 			fmt.Println(string(data))
-			// replay = re-run the check of that property; the file names the failed obligation
+			// a replay file with a generated test: run exactly that test against /repo's current working tree
+			var rf struct {
+				Property   string      `json:"property"`
+				Obligation string      `json:"obligation"`
+				Spec       *ReplaySpec `json:"replay_spec"`
+			}
+			if json.Unmarshal(data, &rf) == nil && rf.Spec != nil && rf.Spec.TestSrc != "" {
+				out := runReplayTest(rf.Spec)
+				fmt.Println(out)
+				if strings.Contains(out, "VERIF-REPLAY-VIOLATED") || (strings.Contains(out, "panic:") && strings.Contains(out, rf.Spec.TestName)) {
+					fmt.Printf("VIOLATION property=%s replay=%s\n", rf.Property, args[i])
+					os.Exit(1)
+				}
+				fmt.Println("replay: the recorded inputs do not violate the postcondition on the current tree")
+				os.Exit(0)
+			}
+			// otherwise replay = re-run the check of that property; the file names the failed obligation
 		default:
 			id = args[i]
 		}
@@ -289,6 +305,9 @@ func checkMain(args []string) {
 			_ = os.WriteFile(rp, rdata, 0o644)
 		}
 		out = append(out, fmt.Sprintf("  failed obligation %s (%s) at %s: %s", o.Name, o.Result, o.Pos, o.Desc))
+		if r, ok := replay["replay"].(string); ok {
+			out = append(out, "  replay: "+r)
+		}
 		out = append(out, fmt.Sprintf("VIOLATION property=%s replay=%s%s", id, rp, suffix))
 	}
 	// a failed obligation is assumed afterwards (execution continues only if the check held), so
